@@ -63,6 +63,44 @@ CLAIMED = {
          'compared to 1e-8 relative on explored histories; which real method maps to which model operation is fixed in the harness.'),
    technique='Lean 4 invariant + refinement proof of the cache state machine, tied by state-by-state correspondence on real objects',
    design='4.C03'),
+ 'C05': dict(
+   text=('Lean 4 theorems (PbVerif.Props.C05): for every size and for ARBITRARY outcomes of the floating-point comparisons (NaN, '
+         'unsorted or repeated values), under the preconditions the Python callers establish, every index used by _find_interval, '
+         '_de_boor, __make_design_matrix, _numba_btb_bty, _determine_fits (+ the windows/skip ranges it hands to the three loess kernels '
+         'and _fill_skips/_interp_inplace), _directional_min_moving_avg and _rolling_std is inside its array; loop fuel proved sufficient. '
+         'Tie: index traces of the kernels\' Python source recorded with logging arrays are diffed with the Lean index models; '
+         '_determine_fits outputs are compared exactly. Direct evaluation: ~6000 boundary-heavy public and direct kernel calls are run '
+         'with the Python source of the kernels substituted, so an out-of-range scalar index raises inside a kernel frame.'),
+   note=('Trusted: Lean kernel; axioms propext, Classical.choice, Quot.sound; Numba compiles the Python source faithfully (slices clip, '
+         'scalar indices in [-n,n) wrap); harness. _quadratic_bezier_spline, _numba_banded_dot_banded and the loess solver are covered '
+         'by the direct monitor only (no Lean index model yet).'),
+   technique='Lean 4 proof of index bounds of kernel models under arbitrary comparison oracles + recorded index-trace correspondence + Python-source kernel monitor',
+   design='4.C05'),
+ 'C12': dict(
+   text=('Lean 4 theorems (PbVerif.Props.C12) about the B-spline kernels modelled in exact rationals: every design-matrix row has '
+         'degree+1 entries in consecutive columns inside the matrix; de Boor values are non-negative and sum to one for every degree, '
+         'non-decreasing knot vector and x in a non-degenerate interval; they equal the Cox-de Boor basis functions; _find_interval returns '
+         'the interval containing x whatever the previous interval was; the banded B\'WB and B\'Wy accumulated by _numba_btb_bty equal '
+         'the explicit products for every weight vector; knot-vector length and basis-midpoint count. Correspondence: real SplineBasis '
+         '(compiled path) vs the exact model on the real knots vs scipy BSpline.design_matrix vs the slow fallback path, x on knots/ends/'
+         'repeated/clustered/unsorted, num_knots 2..200, degree 0..6; captured B\'WB/B\'Wy of PSpline.solve_pspline (compiled and sparse '
+         'fallback) vs explicit products, zero and gap weights.'),
+   note=('Trusted: Lean kernel; axioms propext, Classical.choice, Quot.sound; harness; float de Boor vs exact within 64*eps*(degree+1); '
+         'scipy BSpline as third witness.'),
+   technique='Lean 4 proof (partition of unity, Cox-de Boor equality, interval search, exact normal equations) + three-way correspondence',
+   design='4.C12'),
+ 'C19': dict(
+   text=('Lean 4 theorems (PbVerif.Props.C19) about a model of _determine_fits/_fill_skips validated exactly against the Python source: '
+         'first and last points always fitted, fits strictly increasing; delta <= 0 fits every point; every window is exactly total_points '
+         'indices inside the data and (sorted distinct x) contains its fitted point; skip ranges with interior are exactly the gaps between '
+         'consecutive fits; skipped points lie on the chord of their fitted neighbours. Correspondence/direct evaluation on the real loess: '
+         'conserve_memory True vs False (baseline, weights, coef, tol_history), compiled vs Python-source kernels on well-posed fits, chord '
+         'law at skipped points, polynomial reproduction, over x kinds, total_points poly_order+1..N, delta 0..beyond range, max_iter 0..10.'),
+   note=('Trusted: Lean kernel; axioms propext, Classical.choice, Quot.sound; harness. Equality of the two memory strategies and polynomial '
+         'reproduction are decided on explored inputs (np.linalg.solve is a black box); rank-deficient local fits are excluded from the '
+         'compiled/uncompiled comparison.'),
+   technique='Lean 4 proof of the fit/window/skip selection postconditions + exact model correspondence + strategy-equivalence differential test',
+   design='4.C19'),
 }
 
 checks = []
